@@ -150,6 +150,7 @@ type lmodel struct {
 
 	abortAt    int
 	depthArmed bool
+	thrown     string // description of the uncaught exception the synchronous part of the macrotask ended with
 
 	jobs       int64
 	asyncDepth int
@@ -841,7 +842,7 @@ func (m *lmodel) execOp(o *lop) {
 	case opSetTimeout:
 		m.setTimeout(o.ms, o.key, func() {
 			m.execOps(o.body)
-			m.ev("Z")
+			m.execTail(o.tail)
 		})
 	case opClearTimeout:
 		hit := 0
@@ -871,6 +872,31 @@ func (m *lmodel) execOp(o *lop) {
 	}
 }
 
+// execTail ends the synchronous part of a client task or timer callback; m.thrown describes the value of the throw
+// completion with which it ends ("" for a normal completion).
+func (m *lmodel) execTail(t ltail) {
+	switch t.kind {
+	case tailNone:
+		m.ev("Z")
+	case tailThrow:
+		m.ev("Z")
+		m.thrown = m.desc(m.evalVal(t.val))
+	case tailGetter:
+		m.evL(t.id, mUndef)
+		m.ev("Z")
+		m.thrown = m.desc(m.evalVal(t.val))
+	case tailTypeErr:
+		m.ev("Z")
+		m.thrown = "TypeError"
+	case tailRefErr:
+		m.ev("Z")
+		m.thrown = "ReferenceError"
+	case tailNewErr:
+		m.ev("Z")
+		m.thrown = "RangeError"
+	}
+}
+
 // ---- macrotasks ----------------------------------------------------------------------------------------------
 
 const (
@@ -882,6 +908,7 @@ const (
 // runMacrotask performs one outermost call: the synchronous part, then the complete drain of the job queue.
 // It returns what kind of abort (none, interrupt, depth limit) ended it and whether that happened inside a job.
 func (m *lmodel) runMacrotask(kind, arg int, intent lgoIntent, callable bool, abortAt int, depthArmed bool) (aborted, depth, inJob bool) {
+	m.thrown = ""
 	m.events = m.events[:0:0]
 	m.tracker = m.tracker[:0:0]
 	m.abortAt, m.depthArmed, m.entryCallable = abortAt, depthArmed, callable
@@ -903,13 +930,21 @@ func (m *lmodel) runMacrotask(kind, arg int, intent lgoIntent, callable bool, ab
 	switch kind {
 	case mtTask:
 		m.execOps(m.prog.tasks[arg])
-		m.ev("Z")
+		m.execTail(m.prog.tails[arg])
 	case mtTimer:
 		t := m.timers[arg]
 		t.fired = true
 		t.fn()
 	case mtGoSettle:
 		m.goSettle(arg, intent.rej, intent.val, false)
+	}
+	// A throw completion of the script / function does not touch the job queue (9.5, 16.1.6 ScriptEvaluation): the jobs
+	// queued so far run before control is back in the host, exactly as after a normal completion.
+	if m.thrown != "" {
+		m.count("macrotask-ended-with-uncaught-exception")
+		if len(m.queue) > 0 {
+			m.count("macrotask-threw-with-jobs-pending")
+		}
 	}
 	m.inDrain = true
 	m.drain()
